@@ -156,3 +156,89 @@ Theorem skipping_ignores_text docgen full mw ts st sty s :
 Proof.
   intros H. cbn. destruct (skip st); [congruence|reflexivity].
 Qed.
+
+(* ------------------------------------------------------------------ the short form of a help text
+   A help text is embedded as an inline block (Doc::doc) holding text tokens.  In the short form the
+   block shows the texts before the first paragraph break and the first paragraph of the text holding
+   the break; every later token of the block is skipped, and the end of the block switches
+   skipping off again, so that the next help text starts afresh. *)
+Definition para_state (st' : cstate_r) : cstate_r :=
+  mkCR (nl :: rres st') 0%N 1 (margins st') (pend_nl st') (pend_blank st') (pend_margin st') (cpanic st').
+
+Fixpoint short_texts (docgen : bool) (mw : N) (d : list (style * str)) (st : cstate_r) : cstate_r :=
+  match d with
+  | [] => st
+  | (_, s) :: t =>
+    let cs := split docgen s in
+    if has_para cs then para_state (chunks_step true mw (until_para cs) st)
+    else short_texts docgen mw t (chunks_step true mw cs st)
+  end.
+
+Definition texts (d : list (style * str)) : cdoc := map (fun x => CText (fst x) (snd x)) d.
+
+Lemma raw_step_skip mw s w st : skip (raw_step mw s w st) = skip st.
+Proof. exact (proj2 (raw_step_content mw s w st)). Qed.
+
+Lemma chunks_full_skip mw cs st : skip (chunks_step true mw cs st) = skip st.
+Proof.
+  revert st. induction cs as [|c cs IH]; intros st; cbn; [reflexivity|].
+  destruct c as [s w| |]; cbn; rewrite IH; cbn; [apply raw_step_skip|reflexivity|reflexivity].
+Qed.
+
+Lemma skipping_texts docgen full mw ts d st :
+  skip st <> 0 -> fold_left (token_step docgen full mw ts) (texts d) st = st.
+Proof.
+  revert st. induction d as [|[sty s] d IH]; intros st H; cbn [texts map fold_left]; [reflexivity|].
+  cbn [fst snd]. rewrite skipping_ignores_text by exact H. apply IH. exact H.
+Qed.
+
+Lemma until_para_all cs : has_para cs = false -> until_para cs = cs.
+Proof.
+  induction cs as [|c cs IH]; cbn; [reflexivity|]. destruct c; intros H; try discriminate; rewrite IH by exact H; reflexivity.
+Qed.
+
+Theorem short_block docgen mw ts d st :
+  skip st = 0 ->
+  fold_left (token_step docgen false mw ts) (texts d) st = short_texts docgen mw d st.
+Proof.
+  revert st. induction d as [|[sty s] d IH]; intros st H; cbn [texts map fold_left short_texts]; [reflexivity|].
+  cbn [fst snd]. fold (texts d).
+  assert (E : token_step docgen false mw ts st (CText sty s) = chunks_step false mw (split docgen s) st).
+  { cbn. rewrite H. reflexivity. }
+  rewrite E, short_is_first_paragraph. cbv zeta.
+  destruct (has_para (split docgen s)) eqn:Hp.
+  - apply skipping_texts. cbn. discriminate.
+  - rewrite until_para_all by exact Hp. apply IH. rewrite chunks_full_skip. exact H.
+Qed.
+
+Lemma short_texts_skip docgen mw d st : skip st = 0 -> skip (short_texts docgen mw d st) <= 1.
+Proof.
+  revert st. induction d as [|[sty s] d IH]; intros st H; cbn [short_texts].
+  - rewrite H. auto.
+  - destruct (has_para (split docgen s)); [cbn; auto|]. apply IH. rewrite chunks_full_skip. exact H.
+Qed.
+
+(* a help text block leaves skipping off, whatever it holds *)
+Theorem short_block_closes docgen mw ts d st :
+  skip st = 0 ->
+  skip (fold_left (token_step docgen false mw ts) (CStart BInlineBlock :: texts d ++ [CEnd BInlineBlock]) st) = 0.
+Proof.
+  intros H. cbn [fold_left]. rewrite fold_left_app. cbn [fold_left].
+  set (st0 := token_step docgen false mw ts st (CStart BInlineBlock)).
+  assert (H0 : skip st0 = 0) by (unfold st0; cbn; rewrite H; reflexivity).
+  rewrite short_block by exact H0.
+  pose proof (short_texts_skip docgen mw d st0 H0) as Hle.
+  cbn [token_step set_flags skip].
+  destruct (skip (short_texts docgen mw d st0)) as [|[|n]]; cbn [pred]; try reflexivity.
+  exfalso. apply le_S_n in Hle. inversion Hle.
+Qed.
+
+(* NOT the case for a text that embeds a further document: a paragraph break inside the inner block
+   is forgotten at the inner block's end (the counter only counts blocks opened while skipping) *)
+Lemma short_nested_witness :
+  let a := 97%N in let b := 98%N in let c := 99%N in
+  let d := [CStart BInlineBlock; CStart BInlineBlock; CText SText [a; 10; 10; b]%N; CEnd BInlineBlock;
+            CText SText [c]; CEnd BInlineBlock] in
+  render_console false true 100%N d = Some [a; 10; b; c]%N /\
+  render_console false false 100%N d = Some [a; 10; c]%N.
+Proof. split; vm_compute; reflexivity. Qed.
